@@ -21,6 +21,14 @@ func execSrt(in string) string {
 	if err != nil {
 		return "err"
 	}
+	// unrelated work in between: encoding and signing another claims-set must not disturb this Evidence or its token
+	{
+		r := &rng{s: 7}
+		oc := parseClaims(func() []string { c := validClaims(1+k%2, r); return c[:] }())
+		_, _ = psatoken.EncodeClaimsToCBOR(oc)
+		ev3 := &psatoken.Evidence{Claims: oc}
+		_, _ = ev3.Sign(mkSigner("g1"))
+	}
 	parts := splitSign1(tok)
 	// protected header: a byte string; unprotected: the empty map; payload: a byte string
 	if parts[0][0]>>5 != 2 || len(parts[1]) != 1 || parts[1][0] != 0xa0 || parts[2][0]>>5 != 2 || len(tok) != 2+len(parts[0])+len(parts[1])+len(parts[2])+len(parts[3]) {
@@ -72,6 +80,13 @@ func genC03(tier string, seed uint64, emit func(string)) {
 			for k := 1; k <= 5; k++ {
 				emit("SRT " + strconv.Itoa(k) + " " + c.String())
 			}
+		}
+		// re-signing a decoded Evidence with another key / algorithm, and signing twice
+		for i := 0; i < n/2; i++ {
+			c := validClaims(kind, r)
+			k1, k2 := 1+r.intn(5), 1+r.intn(5)
+			emit("EV 1 " + c.String() + " set:0 vsign:g" + strconv.Itoa(k1) + " dec:t0 ver:" + strconv.Itoa(k1) +
+				" vsign:g" + strconv.Itoa(k2) + " ver:" + strconv.Itoa(k2) + " dec:t1 ver:" + strconv.Itoa(k2) + " ver:" + strconv.Itoa(k1) + " dec:t0 ver:" + strconv.Itoa(k1))
 		}
 		// a few invalid ones: must fail
 		alt := claimAlternatives(kind, r)
